@@ -254,3 +254,10 @@ def reads_recorded(O):
     W = dri.WithRep(O, rep())
     C11.SCOPE_OBS["let"](W)
     C11.identifier_read(W)
+
+
+@obligation("C04/no-read-skipped", desc="Expr::eval, one recursion step: both operands of a binary operator and the operand of a "
+            "unary one are evaluated, whatever the other operand's value (so a Z / X read is never hidden by a short-circuit)")
+def o_no_read_skipped(O):
+    from . import C08
+    C08.expr_eval_step(dri.WithRep(O, rep()))
